@@ -8,7 +8,7 @@ ENV = dict(os.environ, GOFLAGS="-mod=mod", GOPROXY="off", GOSUMDB="off", GOTOOLC
 man = json.load(open(os.path.join(VERIF, "MANIFEST.json")))
 claimed = [c["property_id"] for c in man["checks"]]
 seeds = sys.argv[1:] or sorted(os.listdir(os.path.join(VERIF, "seeded")))
-wt = "/tmp/matrix_repo"
+wt = os.environ.get("MATRIX_WT", "/tmp/matrix_repo")
 out = {}
 for s in seeds:
     d = os.path.join(VERIF, "seeded", s)
@@ -32,4 +32,4 @@ for s in seeds:
     out[s] = hits
     print("%-8s own=%s claimed=%s detected_by=%s" % (s, prop, prop in claimed, " ".join(hits) or "-"), flush=True)
 subprocess.run("git -C /repo worktree remove --force %s" % wt, shell=True, capture_output=True)
-json.dump(out, open("/tmp/seedmatrix.json", "w"), indent=1)
+json.dump(out, open(os.environ.get("MATRIX_OUT", "/tmp/seedmatrix.json"), "w"), indent=1)
